@@ -131,6 +131,13 @@ def _simulate_recession(connection, parameter_file, result):
     may_raise(TypeError)
     may_raise(AssertionError)
     ghost(after="cursor.execute('\\n    SELECT CAST(elapsed_time_s AS double precision)", let="g_rows", do=lambda: cursor.fetchall())
+    # units of the transmissivity handed on: m2/d -- what the constructor returns for the document's transmissivity entry,
+    # times 86400 exactly when THAT entry is of the PEATCLSM kind (which gives m2/s); the kind of specific yield is irrelevant
+    ghost(after="parameters = yaml.safe_load(", let="g_pk", do=lambda: parameters['transmissivity']['type'] == 'peatclsm')
+    ghost(after="transmissivity_m2_s = ", let="g_T0", do=lambda: transmissivity_m2_s)
+    ghost(after="transmissivity_m2_d = ", let="g_T0", do=lambda: transmissivity_m2_d)
+    ghost(before="elapsed_time_d = compute_recession_curve(", let="g_T", do=lambda: transmissivity_m2_d)
+    ensures(forall_real(lambda z: implies(g_pk, g_T(z) == g_T0(z) * 86400) and implies(not g_pk, g_T(z) == g_T0(z))))
     ensures(len(g_rows) >= 1 and len(result[0]) == len(g_rows) and len(result[1]) == len(g_rows) and len(result[2]) == len(g_rows))
     ensures(forall(0, len(g_rows), lambda k: result[0][k] == g_rows[k][0] and result[1][k] == g_rows[k][1]))
     ensures(seq_mean(result[2]) == seq_mean([g_rows[k][0] for k in range(len(g_rows))]))
